@@ -9,7 +9,7 @@ package ro
 // `n` is always the number of values received from the source so far.
 
 //@ operator Take
-//@   props C04 C14
+//@   props C04 C14 C20
 //@   otherwise count == 0 : returns Empty()
 //@   requires count >= 1
 //@   ghost n int = 0
